@@ -1,6 +1,6 @@
 From Coq Require Import List String Ascii ZArith Bool Arith NArith.
 From GM Require Corr.AnaCross.
-From GM Require Import Base.Result Facts.GoFacts Facts.Ana Model.Enums Model.Fields Model.Classify Model.Names Model.SqlTypes Model.Loader Model.Unions Model.Dart.
+From GM Require Import Base.Result Facts.GoFacts Facts.Ana Model.Enums Model.Fields Model.Classify Model.Names Model.SqlTypes Model.Loader Model.Unions Model.Dart Model.DartGen.
 Import ListNotations.
 Local Open Scope string_scope.
 
@@ -15,6 +15,7 @@ Record denum := { de_name : string; de_members : list string; de_values : option
 Record c6_case := {
   c6_root : string;     (* the source root handed to dart.Generate *)
   c6_prog : prog; c6_enums : list enum; c6_ana : ana_obs;
+  c6_dl : option (list (string * (list string * list string)));  (* per file handed to WriteDeclarations: declaration identifiers in order, import lines *)
   c6_files : list dfile; c6_classes : list dclass; c6_unions : list dunion; c6_denums : list denum
 }.
 
@@ -157,10 +158,32 @@ Definition chk_struct_wire (c : c6_case) : bool :=
 
 Definition chk_prop (c : c6_case) : bool := chk_links c && chk_enum_wire c && chk_union_wire c && chk_struct_wire c.
 
+(** * the traversal model (Model/DartGen.v) against the declaration lists of the real generator: same files, same
+      identifiers in the same order, same imports *)
+Definition dart_model (c : c6_case) : result dstate :=
+  dart_run (c6_root c) (c6_prog c) (ao_nodes (c6_ana c)) 16 (ao_source (c6_ana c)).
+
+Definition dart_model_ok (c : c6_case) : bool :=
+  match c6_dl c with
+  | None => true
+  | Some l =>
+      match dart_model c with
+      | Ok st =>
+          forallb (fun x => strs_eqb (decl_ids_of (fst x) (ds_decls st)) (fst (snd x))
+                            && strs_eqb (imports_of (fst x) (ds_imps st)) (snd (snd x))) l
+          && forallb (fun d => existsb (fun x => String.eqb (fst x) (dd_file d)) l) (ds_decls st)
+      | _ => false
+      end
+  end.
+
+(** the link condition on the model's output (Proofs/C06t.v: links_closed_sound) *)
+Definition dart_links_ok (c : c6_case) : bool :=
+  match dart_model c with Ok st => links_closed st | _ => true end.
+
 Section Generic.
   Context {A : Type} (f : A -> bool).
   Fixpoint mism_from (n : N) (cases : list A) : list N :=
     match cases with [] => [] | c :: r => if f c then mism_from (N.succ n) r else n :: mism_from (N.succ n) r end.
 End Generic.
-Definition mismatches := mism_from (fun c => AnaCross.ana_cross_e (c6_prog c) (c6_enums c) (c6_ana c) && chk_model c && chk_files c) 0%N.
-Definition prop_failures := mism_from chk_prop 0%N.
+Definition mismatches := mism_from (fun c => AnaCross.ana_cross_e (c6_prog c) (c6_enums c) (c6_ana c) && chk_model c && chk_files c && dart_model_ok c) 0%N.
+Definition prop_failures := mism_from (fun c => chk_prop c && dart_links_ok c) 0%N.
